@@ -90,6 +90,11 @@ CLAIMED = {
     note="Trusted: Coq kernel; stdlib real axioms; harness/c13.py (unit-exponent table duplicated in Python for the scaling). Four unit labels were repaired in /repo; five models are recorded known findings.",
     technique="Coq proof (homogeneity of the averaging machinery) + regenerated unit-table classification + scaling oracle",
     design="DESIGN.md §3 C13"),
+ "C16": dict(
+    text="Coq theorems for every value type, every interpretation of operators and functions, every caller environment and every well-formed translation (single assignment, no caller parameter assigned, definitions before use): the argument the generated kernel passes to the base function for a replaced base parameter equals the value obtained by running the translation equations in order (C16_composition: identifier substitution + TRANSLATION_VARS + call macros vs sequential evaluation), an untouched base parameter receives the caller's value, and in the derived table the new parameters replace the first removed one as a block while all other base parameters keep their order. Tied to the code by random translations (intermediates, single-letter names, conditionals, insert_after) of a probe base model whose intensity returns a selected base parameter, so the translated arguments are observed through the public kernel and compared with the Coq binary64 evaluation of generated_arg and with a Python evaluation of the equations; plus real reparameterisations (ellipsoid, cylinder, hollow_cylinder, barbell incl. its validity region) against the base model in 1-D/2-D, call_Fq tuples, and dispersity on a new parameter against the weighted average of base evaluations.",
+    note="Trusted: Coq kernel (axiom-free theorems); harness/c16.py (expression generator printing both C and Coq syntax); insert_after placement is checked by the oracle only.",
+    technique="Coq proof (substitution/evaluation commutation by induction over the assignment list) + probe-model correspondence",
+    design="DESIGN.md §3 C16"),
 }
 NA_REASON = "check not built yet in this session (planned, see DESIGN.md §7)"
 
